@@ -195,6 +195,67 @@ pub fn probe_auth(sim: &mut Sim) {
     }
     reqs.push((json!({"modify_contract": {}}), vec![]));
     let accounts = sim.spec.accounts.clone();
+    // the same requests under another spelling of the order's id: whatever such a request does,
+    // it must not let somebody act on the order who could not under its real id
+    {
+        let spell = |id: &str, k: u64| -> String {
+            match k % 5 {
+                0 => id.to_uppercase(),
+                1 => format!("{{{}}}", id),
+                2 => format!("urn:uuid:{}", id),
+                3 => {
+                    if id.contains('-') {
+                        id.replace('-', "")
+                    } else if id.len() == 32 {
+                        format!("{}-{}-{}-{}-{}", &id[0..8], &id[8..12], &id[12..16], &id[16..20], &id[20..32])
+                    } else {
+                        id.to_string()
+                    }
+                }
+                _ => id.chars().enumerate().map(|(i, c)| if i % 2 == 0 { c.to_ascii_uppercase() } else { c }).collect(),
+            }
+        };
+        let k = rng.next();
+        let mut spelled: Vec<(Value, char, String, bool)> = vec![]; // msg, side, real id, owner-only
+        if !ask_ids.is_empty() {
+            let id = (*rng.pick(&ask_ids)).clone();
+            let sp = spell(&id, k);
+            if sp != id && !book.asks.contains_key(&sp) {
+                spelled.push((json!({"cancel_ask": {"id": sp}}), 'a', id.clone(), true));
+                spelled.push((json!({"reject_ask": {"id": sp}}), 'a', id, false));
+            }
+        }
+        if !bid_ids.is_empty() {
+            let id = (*rng.pick(&bid_ids)).clone();
+            let sp = spell(&id, k / 7);
+            if sp != id && !book.bids.contains_key(&sp) {
+                spelled.push((json!({"cancel_bid": {"id": sp}}), 'b', id.clone(), true));
+                spelled.push((json!({"expire_bid": {"id": sp}}), 'b', id, false));
+            }
+        }
+        for (msg, side, real, owner_only) in spelled {
+            let kind = msg.as_object().unwrap().keys().next().unwrap().clone();
+            let owner = if side == 'a' { book.asks[&real].owner.clone() } else { book.bids[&real].owner.clone() };
+            for sender in &accounts {
+                let authorised = if owner_only { sender == &owner } else { cfg.executors.contains(sender) };
+                if authorised {
+                    continue;
+                }
+                let mut fork = sim.chain.clone();
+                let r = fork.deliver(sender, &[], &msg, &TxFaults::default());
+                sim.cov.hit("C05", Fnv::new().str("spelled").str(&kind).u64(r.outcome.is_accepted() as u64).finish(), true);
+                if r.outcome.is_accepted() {
+                    sim.flag(
+                        &["C05"],
+                        "P-auth.unauthorised_accepted_under_other_spelling",
+                        &kind,
+                        "",
+                        format!("{} from {} naming another spelling of order {} (owner {}) was accepted", kind, sender, real, owner),
+                    );
+                }
+            }
+        }
+    }
     for (msg, funds) in reqs {
         let req = model::parse_req(&msg);
         let kind = req.kind().to_string();
